@@ -33,6 +33,9 @@ type HTTPCase struct {
 	Toks     []TokSpec `json:"toks,omitempty"` // {tok0} {tok1} ...
 	Scenario string    `json:"scenario,omitempty"`
 	Muts     []string  `json:"muts,omitempty"`
+	ErrStyle string    `json:"err_style,omitempty"` // how the storage words its own refusals (vkit.StorePolicy.ErrStyle)
+	Repeat   int       `json:"repeat,omitempty"`    // the same request is served this many more times by the same instance (replayed codes / rotated tokens / second polls)
+	Tags     []string  `json:"tags,omitempty"`      // generator's description of the material combination (labels only)
 }
 
 const (
@@ -553,6 +556,7 @@ type httpEnv struct {
 	env   map[string]string
 	now   time.Time
 	notes []string
+	toks  map[string]flowToks
 }
 
 func (e *httpEnv) flow(client, redirect, rt, scope string, extra url.Values, login bool) *vkit.Flow {
@@ -566,87 +570,6 @@ func (e *httpEnv) flow(client, redirect, rt, scope string, extra url.Values, log
 		user = "u1"
 	}
 	return e.ag.RunAuth(q, user)
-}
-
-// prepare resolves the live-material placeholders that the request mentions (lazily: unused material is not produced).
-func (e *httpEnv) prepare(all string) {
-	need := func(name string) bool { return strings.Contains(all, name+"}") }
-	iss := e.sut.Issuer()
-	e.env["iss"], e.env["cid"], e.env["sub"], e.env["jti"], e.env["at_hash"] = iss, "web", "u1", "at-unknown", "x"
-	e.env["opkey"] = e.st.SignKey.KeyName
-	tokensOf := func(client string) (at, rt, idt string) {
-		f := e.flow(client, webRedirect, "code", "openid profile offline_access", nil, true)
-		if f.Code == "" {
-			e.notes = append(e.notes, "prep:no-code:"+client)
-			return
-		}
-		r := e.ag.Token(vkit.CodeExchangeForm(f.Code, webRedirect, ""), vkit.RightCred(e.st.Clients[client], iss))
-		if !r.Success() {
-			e.notes = append(e.notes, "prep:no-tokens:"+client)
-		}
-		return r.Str("access_token"), r.Str("refresh_token"), r.Str("id_token")
-	}
-	if need("code") {
-		e.env["code"] = e.flow("web", webRedirect, "code", "openid profile offline_access", nil, true).Code
-	}
-	if need("code_native") {
-		e.env["code_native"] = e.flow("native", nativeRedirect, "code", "openid profile", url.Values{"code_challenge": {vkit.S256(pkceVerifier)}, "code_challenge_method": {"S256"}}, true).Code
-	}
-	if need("at") || need("rt") || need("idt") {
-		e.env["at"], e.env["rt"], e.env["idt"] = tokensOf("web")
-	}
-	if need("at_other") {
-		e.env["at_other"], _, _ = tokensOf("post")
-	}
-	if need("jwt_at") {
-		e.env["jwt_at"], _, _ = tokensOf("jwtat")
-	}
-	if need("req_id") {
-		e.env["req_id"] = e.flow("web", webRedirect, "code", "openid", nil, false).ReqID
-	}
-	if need("req_id_done") || need("req_id_implicit") {
-		a := e.ag.Authorize(vkit.AuthParams(e.st.Clients["web"], webRedirect, "code", "openid profile", "st", "n1"))
-		if id, ok := vkit.LoginRequestID(a); ok {
-			e.st.Login(id, "u1")
-			e.env["req_id_done"] = id
-		}
-		a = e.ag.Authorize(vkit.AuthParams(e.st.Clients["web"], webRedirect, "id_token token", "openid profile", "st", "n1"))
-		if id, ok := vkit.LoginRequestID(a); ok {
-			e.st.Login(id, "u1")
-			e.env["req_id_implicit"] = id
-		}
-	}
-	if need("device_code") || need("device_code_ok") || need("user_code") {
-		for _, name := range []string{"device_code", "device_code_ok"} {
-			r := e.ag.DeviceAuthorize("openid profile", vkit.RightCred(e.st.Clients["web"], iss))
-			e.env[name] = r.Str("device_code")
-			e.env["user_code"] = r.Str("user_code")
-			if name == "device_code_ok" && e.env[name] != "" {
-				e.st.ApproveDevice(e.env[name], "u1")
-			}
-		}
-	}
-	jwtc := e.st.Clients["jwt"]
-	if need("assert_jwt") {
-		e.env["assert_jwt"] = vkit.ClientAssertion(jwtc, iss, e.now)
-	}
-	if need("bearer_jwt") {
-		e.env["bearer_jwt"] = vkit.AssertionWith("jwt", "jwt", []string{iss}, "kj", "p256b", e.now.Add(-5*time.Second), e.now.Add(5*time.Minute), nil)
-	}
-	if need("reqobj") {
-		ro := TokSpec{Form: "compact", Payload: render(applyMuts(baseDoc("reqobj"), []DocMut{{Key: "iss", Op: "set", Val: `"jwt"`}, {Key: "client_id", Op: "set", Val: `"jwt"`}})), Key: "p256b", Alg: "ES256", Kid: "kj", Sig: "valid"}
-		e.env["reqobj"] = ro.Build(e.env, e.now)
-	}
-	// claims of the hostile tokens point at live objects where possible
-	if at := e.env["at"]; at != "" {
-		for id := range e.st.Tokens {
-			e.env["jti"] = id
-			break
-		}
-	}
-	for i, ts := range e.c.Toks {
-		e.env[fmt.Sprintf("tok%d", i)] = ts.Build(e.env, e.now)
-	}
 }
 
 func directHandler(name string, sut *vkit.SUT) http.Handler {
@@ -766,7 +689,7 @@ func runHTTP(c HTTPCase, res *vkit.Result, h string) {
 		res.Label("http:build-failed")
 		return
 	}
-	e := &httpEnv{c: c, st: st, sut: sut, ag: vkit.NewAgent(sut), env: map[string]string{}, now: now}
+	e := &httpEnv{c: c, st: st, sut: sut, ag: vkit.NewAgent(sut), env: map[string]string{}, now: now, toks: map[string]flowToks{}}
 	all := c.Target + " " + c.Body
 	for _, hd := range c.Headers {
 		all += " " + hd.V
